@@ -367,6 +367,38 @@ func c20OpsPoint(r *core.Run, x, y doc, tx bool) *core.Violation {
 	if f2.Kind != "ok" || !core.EqualFast(f2.Val, core.Norm(int64(n))) {
 		return mk("filter-disagrees-with-the-truth-rule", "o[?x && !y] | length(@)", fmt.Sprint(n), f2)
 	}
+	// chains of three: || yields its first truthy operand or else the LAST one unchanged, && its first falsy one or else the last
+	for _, ch := range [][3]string{{"x", "y", "x"}, {"x", "x", "y"}, {"y", "x", "y"}, {"y", "y", "x"}} {
+		pick := map[string]doc{"x": x, "y": y}
+		ops := []doc{pick[ch[0]], pick[ch[1]], pick[ch[2]]}
+		wantOr, wantAnd := ops[2], ops[2]
+		for i := 2; i >= 0; i-- {
+			if ref.Truthy(ops[i].Norm) {
+				wantOr = ops[i]
+			}
+		}
+		for i := 2; i >= 0; i-- {
+			if !ref.Truthy(ops[i].Norm) {
+				wantAnd = ops[i]
+			}
+		}
+		for _, form := range []string{"%s || %s || %s", "(%s || %s) || %s", "%s || (%s || %s)", "[%s || %s || %s][0]"} {
+			e := fmt.Sprintf(form, ch[0], ch[1], ch[2])
+			o := prepareImplCached(e).run(d)
+			r.Add("evaluations", 1)
+			if !sameRaw(o, wantOr.Raw) {
+				return mk("or-chain-does-not-return-its-operand", e, "operand unchanged: "+wantOr.Text, o)
+			}
+		}
+		for _, form := range []string{"%s && %s && %s", "(%s && %s) && %s", "%s && (%s && %s)"} {
+			e := fmt.Sprintf(form, ch[0], ch[1], ch[2])
+			o := prepareImplCached(e).run(d)
+			r.Add("evaluations", 1)
+			if !sameRaw(o, wantAnd.Raw) {
+				return mk("and-chain-does-not-return-its-operand", e, "operand unchanged: "+wantAnd.Text, o)
+			}
+		}
+	}
 	// the two filters [?@] and [?!@] partition an array, also when the array reaches them through a function that may hand
 	// its argument on unchanged, and whichever is evaluated first
 	for _, e := range []string{"[to_array(l)[?@], to_array(l)[?!@]]", "[l[?!@], l[?@]]", "[not_null(l)[?@], l, not_null(l)[?!@]] | [@[0], @[2]]", "[reverse(reverse(l))[?@], reverse(reverse(l))[?!@]]"} {
